@@ -60,6 +60,11 @@ func mutateClaim(t *core.Tape, claim sdk.Msg) (sdk.Msg, string) {
 				}
 			}
 		}
+		if name != "ChainReferenceId" && t.Draw(6) == 5 {
+			// the same text with white space around it (it no longer decodes as an address when the claim is applied)
+			f.SetString([]string{v + " ", " " + v, v + "\t", v + "\n"}[t.Intn(4)])
+			return cp.Interface().(sdk.Msg), name + " (white space)"
+		}
 		switch {
 		case name == "ChainReferenceId":
 			f.SetString(v) // the chain is part of the storage location, not of the body: leave
